@@ -10,7 +10,12 @@ from lazy_object_proxy import Proxy
 
 from spec_classes.types import MISSING, UNCHANGED, Attr
 from spec_classes.utils.method_builder import MethodBuilder
-from spec_classes.utils.mutation import mutate_attr, mutate_value, prepare_attr_value
+from spec_classes.utils.mutation import (
+    mutate_attr,
+    mutate_value,
+    prepare_attr_value,
+    under_construction,
+)
 
 from .base import AttrMethodDescriptor
 
@@ -273,7 +278,8 @@ class ResetAttrMethod(AttrMethodDescriptor):
             return self
         if not _inplace:
             self = copy.deepcopy(self)
-        delattr(self, attr_spec.name)
+        with under_construction(self, not _inplace):
+            delattr(self, attr_spec.name)
         return self
 
     def build_method(self) -> Callable:
